@@ -265,8 +265,8 @@ def body_plan(doc: dict, man: dict, man_ep: dict, op: dict, tok: docs.Tok, rng: 
             if name not in mprops:
                 return None
             req = name in mo["required"]
-            if not req and rng.random() < 0.4:
-                continue
+            if not req and rng.random() < 0.4 and mprops[name].get("default") is None:
+                continue  # (a property with a default is never omitted: its default would be transmitted)
             ps = docs.resolve(docs.narrowest(schemas, comps), comps)
             if ps.get("format") == "binary":
                 data = file_bytes(tok)
@@ -337,10 +337,8 @@ def response_plan(doc: dict, man_ep: dict, op: dict, tok: docs.Tok, rng: random.
     if schema is None:
         x["expect"] = "untyped"
         return {"status": int(st), "headers": marker + [["content-type", mt]], "content": base64.b64encode(b"{}").decode()}, x
-    if isinstance(schema, dict) and docs.resolve(schema, comps).get("format") == "binary" and base != "application/octet-stream":
-        x["expect"] = "undefined"  # no defined meaning (Appendix E): asserted only for variant agreement and for not disturbing other responses
-        return {"status": int(st), "headers": marker + [["content-type", mt]], "content": base64.b64encode(b"raw-bytes").decode()}, x
-    if base == "application/octet-stream":
+    if base == "application/octet-stream" or (isinstance(schema, dict) and docs.resolve(schema, comps).get("format") == "binary" and docs.resolve(schema, comps).get("type") == "string"):
+        # a binary schema is a file object built from the served bytes, whatever the media type (repository fix 3rd wave)
         data = file_bytes(tok)
         x["expect"] = "bytes"
         x["bytes"] = base64.b64encode(data).decode()
@@ -410,6 +408,9 @@ def plan_ops(doc: dict, man: dict, args: dict) -> list:
                             unset[loc].append({"name": p["name"], "has_default": False, "explicit_unset": True})
                             continue
                         unset[loc].append({"name": p["name"], "has_default": p["default"] is not None, "default_raw": (p["default"] or {}).get("raw")})
+                        if p["default"] is not None and loc in ("header", "cookie") and not py_is_str(p, (p["default"] or {}).get("raw")):
+                            # the default is transmitted in place of the omitted argument: same stringification question as for a passed value
+                            nonstr.add(f"{loc}:{p['kind']}" if loc == "header" else loc)
                         continue
                     try:
                         v = docs.instance(dp.get("schema", {}), comps, tok, "rand" if ci else "max", 1)
